@@ -98,7 +98,17 @@ class KernelSim(WorldBase):
         case = K.gen_case(g, max_shape=cfg["max_shape"], explicit=cfg.get("explicit", 0.0))
         evs = [["case", case]]
         if self.prop == "C06":
-            for flow in K.all_flows(case, g, max_flows=cfg["max_flows"]):
+            flows = K.all_flows(case, g, max_flows=cfg["max_flows"])
+            out, ops = K.case_spec(case)
+            cut = g.randint(1, max(1, len(flows) - 1)) if g.random() < 0.5 else None
+            for i, flow in enumerate(flows):
+                if cut is not None and i == cut:
+                    # the program updates an operand in place between two executions
+                    nm, idx = g.choice(ops)
+                    evs.append(["touch", {"name": nm, "point": [g.randrange(8) for _ in idx], "v": g.choice([1, 2, -1, 3])}])
+                    # ... and some of the dataflows it already used are used again
+                    for fl in g.sample(flows[:cut], min(cut, 3)):
+                        evs.append(["run", fl])
                 evs.append(["run", flow])
             return evs
         if self.prop == "C15":
@@ -342,6 +352,8 @@ class KernelSim(WorldBase):
                 raise Skip("no case")
             if kind == "run":
                 return self.ev_run(ev[1])
+            if kind == "touch":
+                return self.ev_touch(ev[1])
             if kind == "session":
                 return self.ev_session(ev[1])
             raise Skip("unknown")
@@ -354,6 +366,27 @@ class KernelSim(WorldBase):
         self.ref = K.dense(case)
         self.snap = {n: ob.snapshot(t) for n, t in self.tensors.items()}
         return {"family": case["family"], "ref_points": len(self.ref)}
+
+    def ev_touch(self, a):
+        """between two executions the program updates one operand in place (a new non-zero value at a point inside its
+        shape); every later dataflow must compute with the operand as it is now"""
+        nm = a["name"]
+        t = (self.tensors or {}).get(nm)
+        if t is None:
+            raise Skip("no such operand")
+        out, ops = K.case_spec(self.case)
+        idx = dict(ops)[nm]
+        pt = [c % self.case["shapes"][i] for c, i in zip(a["point"], idx)]
+        if len(pt) != len(idx) or a["v"] == 0:
+            raise Skip("point")
+        r = t.getPayloadRef(*pt)
+        r <<= a["v"]
+        vals = [e for e in self.case["vals"][nm] if list(e[0]) != pt] + [[pt, a["v"]]]
+        self.case = dict(self.case, vals=dict(self.case["vals"], **{nm: sorted(vals)}))
+        self.ref = K.dense(self.case)
+        self.snap[nm] = ob.snapshot(t)
+        self.probe("operand_updated_between_runs")
+        return {"touched": nm}
 
     def _check_flow(self, flow):
         case = self.case
